@@ -28,6 +28,17 @@ Theorem C02_pass : forall (K : Type) (leb : K -> K -> bool) (hs_of : nat -> nat 
 Proof. exact pass_sorted. Qed.
 Print Assumptions C02_pass.
 
+(* ... as a function: a completed pass (batch = 0) dispatched exactly [bucket ks] of what was queued when it began:
+   for each priority value of [ks] (the distinct priority values, strictly ascending, covering the snapshot) the
+   entries of that priority in queue order.  Any number of entries. *)
+Theorem C02_pass_exact : forall (K : Type) (leb : K -> K -> bool) (hs_of : nat -> nat -> list (handler K)),
+  Total K leb -> Trans K leb -> forall prog s t1 t2 ks, reach K leb hs_of prog s ->
+  trace s = t1 ++ TSnap :: t2 -> nosnap K t2 -> batch s = 0 ->
+  asc K leb ks -> covers K leb ks (pending_fires t1) ->
+  disps t2 = bucket leb ks (pending_fires t1).
+Proof. exact pass_exact. Qed.
+Print Assumptions C02_pass_exact.
+
 (* ids are the positions in the global fire order, so "ictr a < ictr b" in prec means "a fired first" *)
 Theorem C02_fire_order : forall (K : Type) (leb : K -> K -> bool) (hs_of : nat -> nat -> list (handler K)), 
   forall prog s, reach K leb hs_of prog s ->
@@ -229,4 +240,21 @@ Example C02_handlers_once_refuted : exists (tbl : list (nat * list handlerZ)) or
 Proof.
   exists (mc_tbl []), mc_ord, (Build_item 0%Z 0 0 MNormal [0; 1]). vm_compute.
   intro N. inversion N as [|? ? N1 N2]; subst. inversion N2 as [|? ? N3 _]; subst. apply N3. left. reflexivity.
+Qed.
+(* a burst: 40 events with priorities 0,2,0,2,..., marks at positions 39 (priority -3), 5 (7) and 17 (2), the
+   head's handler fires an urgent event (priority -14) during pass 1.  Running the machine and evaluating the
+   specification (bucket order for pass 1, the urgent event in pass 2) give the same digest; the dispatch order
+   is: the mark 39, the 20 even jobs, the odd jobs 1,3 and 7..37 (with mark 17 among them), mark 5, then urgent *)
+Example C02_ex_burst_machine_vs_spec :
+  obs_burst 40 [0; 2]%Z [(39, -3); (5, 7); (17, 2)]%Z (Some (-14)%Z) 3 100000 =
+  obs_burst_spec 40 [0; 2]%Z [(39, -3); (5, 7); (17, 2)]%Z (Some (-14)%Z) 3 /\
+  obs_burst 33 [1; -1; 0]%Z [(32, -2); (0, 5)]%Z None 2 100000 = obs_burst_spec 33 [1; -1; 0]%Z [(32, -2); (0, 5)]%Z None 2.
+Proof. vm_compute. auto. Qed.
+Example C02_ex_pass_exact_hyps :
+  asc Z Z.leb [-3; 0; 2; 7]%Z /\
+  covers Z Z.leb [-3; 0; 2; 7]%Z (burst_items 40 [0; 2]%Z [(39, -3); (5, 7); (17, 2)]%Z true).
+Proof.
+  split.
+  - repeat constructor.
+  - unfold covers. apply Forall_forall. vm_compute. repeat constructor.
 Qed.
